@@ -11,6 +11,28 @@ sys.path.insert(0, V)
 sys.dont_write_bytecode = True
 
 props = [json.loads(l) for l in open(os.path.join(V, "properties.jsonl"))]
+TEXT = {
+ "C01": ("online postcondition on every Step.apply (8 classes): result valid under an independent reference validator or reported failure; primitive steps with hostile but schema-valid payloads, via JSON, plus all steps the transform API emits and the repository's own tests", "runtime monitoring: contract monitor on Step.apply + reference validator (derivative-based content regexes)"),
+ "C02": ("every slice / cut / replace observed is compared with the flat-token splice computed by the reference (tree equality incl. text normal form, size law, raise-exactly-when-invalid)", "runtime monitoring: boundary recording + flat-token reference model"),
+ "C03": ("online postcondition on every successful Step.apply: map read through for_each agrees with its ranges, size delta, and every old token outside the ranges is found at the mapped position", "runtime monitoring: contract monitor + token-movement oracle"),
+ "C04": ("histories of random transform operations: bookkeeping aligned after every (also rejected) operation, replay (direct and via JSON), undo by inverted steps, inverse-map law at every position; single-step undo under every schema", "runtime monitoring: history recording + offline replay/undo checker"),
+ "C05": ("to_json -> json.dumps/loads -> from_json of nodes, fragments, slices, marks and all 8 step types: equality, identical JSON, plain data, no aliasing (identity + poisoning), same effect and map on other documents, registry names", "runtime monitoring: boundary recording + identity/aliasing oracle"),
+ "C06": ("product of the live compiled automaton with Brzozowski derivatives of the generated expression tree decides acceptance for sequences of any length; exhaustive over all trees up to a size bound, random beyond; malformed expressions must be rejected", "runtime monitoring: quiescent-point walk of the compiled automaton vs reference automaton (product / bisimulation)"),
+ "C07": ("validity predicates on valid and deliberately invalid nodes compared with the reference definition for all child ranges, replacement sub-ranges, node types and mark sets", "runtime monitoring: boundary recording + reference validator, both polarities"),
+ "C08": ("all step maps with <= 3 ranges exhaustively (plain and inverted, every position, both sides) against the documented rule; mappings from random histories: fold, slice, copy, append*, invert, mirrors; rebasing constructions judged by token tracking", "runtime monitoring: exhaustive small-scope enumeration + reference mapping rule + token tracking"),
+ "C09": ("every position and sampled pairs of generated documents: all ResolvedPos accessors, lookups, traversals and text extraction recomputed from an annotated plain tree in UTF-16 units, ancestors compared by identity", "runtime monitoring: boundary recording + annotated-tree reference"),
+ "C10": ("live-set fingerprints (values and identity structure, to_json) of every object that crossed the API re-verified after each of 15-40 mixed operations; shared singletons; accumulators only grow; __setattr__ interposer names the writer", "runtime monitoring: invariant at quiescent points over a registry of live objects"),
+ "C11": ("replace-family operations at arbitrary ranges with slices of every open depth: totality (exceptions, LINE budget) in the upstream-test schemas, validity and content preservation under every schema", "runtime monitoring: boundary recording + leaf-sequence oracle + LINE-budget watchdog"),
+ "C12": ("whenever a structure helper approves, the edit is performed and must return a valid document; results in range; split/join/lift/wrap keep the leaf sequence", "runtime monitoring: approve-then-perform oracle"),
+ "C13": ("mark / attribute / retype operations compared token by token with the documented effect computed by the reference mark algebra", "runtime monitoring: boundary recording + token-level effect oracle"),
+ "C14": ("all 512 exclusion relations over 3 mark types x all reachable mark sets x 4 parent types exhaustively, random configurations beyond; every add/remove/lookup/filter compared with the reference algebra", "runtime monitoring: exhaustive small-scope BFS + reference mark algebra"),
+ "C15": ("fill_before / find_wrapping / default_type / create_and_fill at every reachable match state: soundness on the returned nodes, completeness against BFS over the reference automaton / type graph", "runtime monitoring: product exploration + reference BFS"),
+ "C16": ("ordered step pairs built for both adjacency branches: a non-None merge must apply, equal the two steps, and do so on further documents", "runtime monitoring: differential oracle (merged vs sequential)"),
+ "C17": ("pairs of single steps from every high-level operation with token-separated touched ranges: rebased steps not dropped, both orders apply and converge", "runtime monitoring: differential oracle (two application orders)"),
+ "C18": ("replace-family operations with both ends inside an isolating node: all tokens up to its open token and from its close token unchanged; lift_target / can_split / max_open never cross", "runtime monitoring: prefix/suffix token invariant + helper range checks"),
+ "C19": ("random HTML under a LINE budget: returns a reference-valid document; context rules vs reference matcher; style rules; export escaping re-parsed by lxml; round trip on constructed whitespace-normal documents", "runtime monitoring: totality + validity oracle, reference context matcher, round-trip oracle"),
+ "C20": ("(before, after) pairs of edits sharing nodes, rebuilt copies, point mutations: find_diff_start/end under a LINE budget vs longest common prefix/suffix of markup-carrying token lists", "runtime monitoring: LINE-budget watchdog + token prefix/suffix oracle"),
+}
 checks, na = [], []
 for p in props:
     pid = p["id"]
@@ -28,11 +50,11 @@ for p in props:
         "engine": "vlib",
         "level_claimed": {
             "category": getattr(m, "LEVEL", "exploration"),
-            "text": getattr(m, "LEVEL_TEXT", "runtime monitoring: held on the executions observed (see evidence), nothing is proved"),
+            "text": "held on the executions observed, nothing is proved: " + TEXT[pid][0] + ". Exploration is the right level: the quantifier is over unbounded inputs/histories and the deciding step is an oracle per observed execution; the evidence file reports what was observed.",
             "design_ref": "DESIGN.md section 3, " + pid,
         },
-        "level_note": getattr(m, "LEVEL_NOTE", "trusted base: the reference model in vlib/flat.py, vlib/refschema.py, vlib/refmap.py and the generators' validity filter"),
-        "technique": getattr(m, "TECHNIQUE", "runtime monitoring: boundary recording + reference-model oracle over generated workloads"),
+        "level_note": "trusted base: the reference model (vlib/flat.py, vlib/refschema.py, vlib/refmap.py) and the generators' validity filters; assumptions and known findings are listed in the evidence file and in DESIGN.md sections 3b, 6b, 7; " + "; ".join(getattr(m, "ASSUMPTIONS", []))[:600],
+        "technique": TEXT[pid][1],
     })
 man = {
     "version": 1,
